@@ -399,8 +399,10 @@ func setExpires(ctx *Context, fact map[string]interface{}) (bool, int64, error) 
 		switch vv := ttl.(type) {
 		case float64: // Only kind of number in Javascript!
 			expires = NowSecs() + int64(vv)
-		case int64:
-			expires = vv
+		case int64: // Can arrive from Go, and from Javascript via otto.
+			expires = NowSecs() + vv
+		case int:
+			expires = NowSecs() + int64(vv)
 		case string:
 			d, err := time.ParseDuration(vv)
 			if err != nil {
